@@ -3,7 +3,9 @@
 
 #[macro_use]
 mod engine;
+mod aut;
 mod gen;
+mod oracle;
 mod props;
 
 use engine::{Engine, Tier};
